@@ -108,6 +108,7 @@ async fn fault_history(rng: &mut Rng, run: &mut Run, case_no: u64) -> std::io::R
     let mut conns: SmallVec<SrtlaConnection, 4> = SmallVec::new();
     let mut io: ConnIoMap = std::collections::HashMap::new();
     let mut rx = vec![];
+    let joining = rng.chance(1, 2);
     for j in 0..n {
         let r = StdUdp::bind("127.0.0.1:0")?;
         r.set_nonblocking(true)?;
@@ -115,16 +116,26 @@ async fn fault_history(rng: &mut Rng, run: &mut Run, case_no: u64) -> std::io::R
         let ip = IpAddr::V4(Ipv4Addr::new(127, 0, 0, 2 + j as u8));
         let conn_id = 0x4000 + case_no * 16 + j as u64;
         let mut c = SrtlaConnection::new_registering(conn_id, format!("f{}", j), ip, now);
-        c.connected = true;
-        c.phase = LinkPhase::Live;
-        c.last_received = Some(now);
-        c.reconnection.connection_established_ms = now;
+        // in half of the histories uplink 0 is a late joiner: never established, still inside its start-up
+        // grace (not timed out), registering — it must carry no stream data whatever else happens
+        if !(j == 0 && joining) {
+            c.connected = true;
+            c.phase = LinkPhase::Live;
+            c.last_received = Some(now);
+            c.reconnection.connection_established_ms = now;
+        }
         io.insert(conn_id, ConnIo { socket: Arc::new(mk_uplink_socket(ip, remote)?), binder: Arc::new(SourceIpBinder), remote });
         conns.push(c);
         rx.push(r);
     }
     let cfg = Cfg { guard: rng.chance(3, 4), classic: rng.chance(1, 3), ..default_cfg() };
     let snap = cfg.snapshot();
+    // the session is established; the event loop hands `reg.has_connected` to handle_srt_packet as the
+    // session-established flag on every datagram (src/sender/mod.rs), and so does this history
+    let mut reg = srtla_core::SrtlaRegistrationManager::new();
+    reg.has_connected = true;
+    let (instant_tx, _instant_rx) = tokio::sync::mpsc::unbounded_channel();
+    let listener = tokio::net::UdpSocket::bind("127.0.0.1:0").await?;
     let mut tracker = SequenceTracker::new();
     let mut last_sel: Option<usize> = None;
     let mut client: Option<SocketAddr> = None;
@@ -147,7 +158,7 @@ async fn fault_history(rng: &mut Rng, run: &mut Run, case_no: u64) -> std::io::R
             buf[4] = if rng.chance(1, 5) { 0x04 } else { 0x00 };
             verif_clock::set(Some(now));
             vh::handle_srt_packet(Ok((32 + rng.below(900) as usize, src)), &mut buf, &mut conns, &io, &mut last_sel,
-                                  &mut tracker, &mut client, true, &snap, &cw).await;
+                                  &mut tracker, &mut client, reg.has_connected, &snap, &cw).await;
             run.count("fault:client");
         } else if r < 68 {
             kind = 1;
@@ -181,6 +192,16 @@ async fn fault_history(rng: &mut Rng, run: &mut Run, case_no: u64) -> std::io::R
             if c.reconnection.connection_established_ms == 0 { c.reconnection.connection_established_ms = now; }
             c.phase = LinkPhase::Live;            // warm-up over (RTT probes answered)
             run.count("fault:reg3");
+        } else if r < 98 {
+            kind = 6;
+            // the receiver refuses uplink i (REG_ERR) — through the real uplink arm and registration manager.
+            // Its queue is flushed first: what was routed while the link was eligible may still go out.
+            let i = rng.below(n as u64) as usize;
+            verif_clock::set(Some(now));
+            vh::flush_all_batches(&mut conns, &io).await;
+            let packet = vh::UplinkPacket { conn_id: conns[i].conn_id, bytes: SmallVec::from_slice_copy(&[0x92, 0x10]) };
+            vh::handle_uplink_packet(packet, &mut conns, &io, &mut reg, &instant_tx, client, &listener, &tracker, &snap).await;
+            run.count("fault:reg_err");
         } else {
             kind = 5;
             now += *rng.pick(&[1u64, 50, 999, 4999, 5001]);
